@@ -115,6 +115,12 @@ def check(run):
         one_case(run, [s1, s2], [0.1, -0.2, 0.3], [rng.choice(triples) for _ in range(2)] + [(0, 0, 0)], None, "off")
         run.count("tail regime")
         k += 1
+    from checks.common import near_cases, near_pair
+    for la, lb, sep, far in near_cases(run, 3):
+        s1, s2 = near_pair(rng, la, lb, sep, far)
+        org = [float(c) + 0.3 for c in s1.center] if far else [0.1, -0.2, 0.3]
+        one_case(run, [s1, s2], org, [rng.choice(triples) for _ in range(2)] + [(0, 0, 0), (1, 0, 0)], None, "off")
+        run.count("nearly coincident centres")
     for _ in range(4 if run.tier == "quick" else 30):
         specs = random_basis(rng, 1, 3, lmax=3)
         relations(run, specs, [core.snap(rng.uniform(-1, 1), 8) for _ in range(3)])
